@@ -51,9 +51,13 @@ def sources(tier, seed, ctx):
             srcs.append(s)
     # every pipeline sequence on a few circuits, in every shape over the run
     k = 0
+    dupes = [c for c in circs if c.get('family') == 'F2']
     for pn, leaves in enumerate(pipes):
         for rep in range(2 if tier == 'quick' else 6):
-            s = dict(circs[(pn * 7 + rep * 13) % len(circs)])
+            pool = circs
+            if dupes and any(x.startswith('U') for x in leaves) and rep % 2 == 0:
+                pool = dupes     # user passes imply duplicate merging: circuits that do contain duplicate gates
+            s = dict(pool[(pn * 7 + rep * 13) % len(pool)])
             s['pass'] = 'pipeline'
             s['leaves'] = leaves
             s['shape'] = P.SHAPES[k % len(P.SHAPES)]
